@@ -703,14 +703,14 @@ int disasm_68000(
     if (offset == 0)
     {
       offset = (int16_t)READ_RAM16(address + 2);
-      snprintf(instruction, length, "b%s.w 0x%x (%d)", table_68000_condition_codes[(opcode >> 8) & 0xf], address + 4 + offset, offset);
+      snprintf(instruction, length, "b%s.w 0x%x (%d)", table_68000_condition_codes[(opcode >> 8) & 0xf], address + 2 + offset, offset);
       return 4;
     }
       else
     if (offset == 0xff)
     {
       offset = READ_RAM32(address + 2);
-      snprintf(instruction, length, "b%s.l 0x%x (%d)", table_68000_condition_codes[(opcode >> 8) & 0xf], address + 6 + offset, offset);
+      snprintf(instruction, length, "b%s.l 0x%x (%d)", table_68000_condition_codes[(opcode >> 8) & 0xf], address + 2 + offset, offset);
       return 6;
     }
       else
